@@ -20,7 +20,7 @@ ASSUMPTIONS = [
     "costs, capacities and footprints are symbolic integers in [1, 2^20]; routes are symmetric",
     "message lists (paths, visited, hosts) are shared by reference between sender and receiver, as with the in-process transport",
 ]
-BOUNDS = {"quick": "3 agents in a line (x-y-z, one computation each), k in {1,2}; canonical schedule with symbolic costs + all FIFO interleavings with pinned costs; a star of 4 computations with two of them on one agent (k in {2,3}, canonical schedule)",
+BOUNDS = {"quick": "3 agents in a line (x-y-z, one computation each), k in {1,2}; canonical schedule with symbolic costs + all FIFO interleavings with pinned costs; a star of 4 computations with two of them on one agent (k in {2,3}, canonical schedule; symbolic footprints, and equal concrete footprints with symbolic capacities)",
           "thorough": "quick + all FIFO interleavings with symbolic costs (k=1), triangle of agents; bug hunting only (cpu budget): an agent owning two computations with every interleaving of the deliveries (sleep-set reduced)"}
 OUTSIDE = "more than 3 agents, k = 3, agent departures during replication, the HTTP transport"
 CAP_S = {"quick": 1200, "thorough": 10800}
@@ -35,6 +35,9 @@ def jobs(tier):
     # two computations of different footprints on one agent: their replicas meet on a third agent
     out.append({"name": "star-two-on-one-fixed", "struct": "star3", "ks": [2, 3], "fixed": True, "sleep": False, "pins": {"route": 1, "host": 1},
                 "owners": {"x": "a1", "y": "a0", "z": "a0", "w": "a2"}})
+    # the same with equal, concrete footprints (hash-based containers only merge equal concrete numbers) and symbolic capacities
+    out.append({"name": "star-two-on-one-equalfoot", "struct": "star3", "ks": [2, 3], "fixed": True, "sleep": False,
+                "pins": {"route": 1, "host": 1, "foot": 2}, "concrete": ["foot"], "owners": {"x": "a1", "y": "a0", "z": "a0", "w": "a2"}})
     # an agent owning two computations, every interleaving (all numbers pinned): the two searches share nothing
     two = {"struct": "star3", "ks": [2], "fixed": False, "pins": {"cap": 10, "foot": 2, "route": 1, "host": 1},
            "owners": {"x": "a1", "y": "a0", "z": "a0", "w": "a2"}}
@@ -74,6 +77,8 @@ def run(eng, p):
 
     def num(name, kind):
         if pins and kind in pins:
+            if kind in p.get("concrete", ()):
+                return pins[kind]                  # a plain Python number (equal ones merge in sets / dict keys)
             return eng.sym_int(name, pins[kind], pins[kind])
         return eng.sym_int(name, 1, LIM)
     inst = Instance(eng, spec(p["struct"], "min"), lo=0, hi=0)
@@ -110,9 +115,10 @@ def run(eng, p):
         rep.replication_done = (lambda hosts, _a=a: done.append(_a))
         orig_accept = rep._accept_replica
 
-        def accept(origin, comp_def, fp, _rep=rep, _o=orig_accept, _a=a):
+        def accept(origin, comp_def, fp, _rep=rep, _o=orig_accept, _a=a, _cap=adef.capacity, _mine=tuple(mine)):
             held = dict(_rep._hosted_replicas)
-            remaining = _rep._remaining_capacity()
+            # written from the definition (not read from the code under analysis): capacity minus what the agent runs itself
+            remaining = _cap - F.sum([foot[c] for c in _mine])
             owners = sorted(set(o for o, f in held.values()))
             m = min(k - 1, len(owners))
             worst = [F.sum([f for o, f in held.values() if o in sel]) for sel in itertools.combinations(owners, m)] or [0]
